@@ -13,7 +13,7 @@ use super::*;
 use vstd::prelude::*;
 use vstd::string::*;
 use core::result::Result;
-use crate::dekey_::{CowRef, DeError};
+use crate::dekey_::{CowRef, DeError, QNameDeserializer};
 use crate::delist_::{AtomicDeserializer, SimpleTypeDeserializer, ListIter, Content};
 
 // ---- A-serde: the foreign traits, as far as these functions use them; nothing is assumed about what they do ----
@@ -603,5 +603,144 @@ impl<'de, 'a> SimpleTypeDeserializer<'de, 'a> {
         Ok((name, UnitOnly))
     }
 //@end
+}
+// ---- the key deserializer (src/de/key.rs) ----
+impl<'de, 'd> DeModel<'de> for QNameDeserializer<'de, 'd> {}
+impl<'de, 'd> EnumModel<'de> for QNameDeserializer<'de, 'd> {}
+impl<'i, 's> CowRef<'i, 's, str> {
+    /// std: `Deref<Target = str>` + `str::is_empty`
+    #[verifier::external_body]
+    pub fn is_empty(&self) -> bool { unimplemented!() }
+}
+impl<'de, 'd> QNameDeserializer<'de, 'd> {
+//@extract de::key::QNameDeserializer::deserialize_bool | src/de/key.rs :: impl<'de, 'd> Deserializer<'de> for QNameDeserializer<'de, 'd> :: fn deserialize_bool | serves=C07 features=serialize
+//@rewrite-opt Self::Error ==> DeError
+    /// According to the <https://www.w3.org/TR/xmlschema11-2/#boolean>,
+    /// valid boolean representations are only `"true"`, `"false"`, `"1"`,
+    /// and `"0"`.
+    fn deserialize_bool<V>(self, visitor: V) -> Result<V::Value, DeError>
+    where
+        V: Visitor<'de>,
+    {
+        self.name.deserialize_bool(visitor)
+    }
+//@end
+//@extract de::key::QNameDeserializer::deserialize_unit | src/de/key.rs :: impl<'de, 'd> Deserializer<'de> for QNameDeserializer<'de, 'd> :: fn deserialize_unit | serves=C07 features=serialize
+//@rewrite-opt Self::Error ==> DeError
+    /// Calls [`Visitor::visit_unit`]
+    fn deserialize_unit<V>(self, visitor: V) -> Result<V::Value, DeError>
+    where
+        V: Visitor<'de>,
+    {
+        visitor.visit_unit()
+    }
+//@end
+//@extract de::key::QNameDeserializer::deserialize_unit_struct | src/de/key.rs :: impl<'de, 'd> Deserializer<'de> for QNameDeserializer<'de, 'd> :: fn deserialize_unit_struct | serves=C07 features=serialize
+//@rewrite-opt Self::Error ==> DeError
+    /// Forwards deserialization to the [`Self::deserialize_unit`]
+    fn deserialize_unit_struct<V>(
+        self,
+        _name: &'static str,
+        visitor: V,
+    ) -> Result<V::Value, DeError>
+    where
+        V: Visitor<'de>,
+    {
+        self.deserialize_unit(visitor)
+    }
+//@end
+//@extract de::key::QNameDeserializer::deserialize_any | src/de/key.rs :: impl<'de, 'd> Deserializer<'de> for QNameDeserializer<'de, 'd> :: fn deserialize_any | serves=C07 features=serialize
+//@rewrite-opt Self::Error ==> DeError
+    fn deserialize_any<V>(self, visitor: V) -> Result<V::Value, DeError>
+    where
+        V: Visitor<'de>,
+    {
+        self.deserialize_identifier(visitor)
+    }
+//@end
+//@extract de::key::QNameDeserializer::deserialize_option | src/de/key.rs :: impl<'de, 'd> Deserializer<'de> for QNameDeserializer<'de, 'd> :: fn deserialize_option | serves=C07 features=serialize
+//@rewrite-opt Self::Error ==> DeError
+    /// If `name` is an empty string then calls [`Visitor::visit_none`],
+    /// otherwise calls [`Visitor::visit_some`] with itself
+    fn deserialize_option<V>(self, visitor: V) -> Result<V::Value, DeError>
+    where
+        V: Visitor<'de>,
+    {
+        if self.name.is_empty() {
+            visitor.visit_none()
+        } else {
+            visitor.visit_some(self)
+        }
+    }
+//@end
+//@extract de::key::QNameDeserializer::deserialize_newtype_struct | src/de/key.rs :: impl<'de, 'd> Deserializer<'de> for QNameDeserializer<'de, 'd> :: fn deserialize_newtype_struct | serves=C07 features=serialize
+//@rewrite-opt Self::Error ==> DeError
+    fn deserialize_newtype_struct<V>(
+        self,
+        _name: &'static str,
+        visitor: V,
+    ) -> Result<V::Value, DeError>
+    where
+        V: Visitor<'de>,
+    {
+        visitor.visit_newtype_struct(self)
+    }
+//@end
+//@extract de::key::QNameDeserializer::deserialize_identifier | src/de/key.rs :: impl<'de, 'd> Deserializer<'de> for QNameDeserializer<'de, 'd> :: fn deserialize_identifier | serves=C07 features=serialize
+//@rewrite-opt Self::Error ==> DeError
+    /// Calls a [`Visitor::visit_str`] if [`name`] contains only UTF-8
+    /// compatible encoded characters and represents an element name and
+    /// a [`Visitor::visit_string`] in all other cases.
+    ///
+    /// [`name`]: Self::name
+    fn deserialize_identifier<V>(self, visitor: V) -> Result<V::Value, DeError>
+    where
+        V: Visitor<'de>,
+    {
+        match self.name {
+            CowRef::Input(name) => visitor.visit_borrowed_str(name),
+            CowRef::Slice(name) => visitor.visit_str(name),
+            CowRef::Owned(name) => visitor.visit_string(name),
+        }
+    }
+//@end
+//@extract de::key::QNameDeserializer::deserialize_enum | src/de/key.rs :: impl<'de, 'd> Deserializer<'de> for QNameDeserializer<'de, 'd> :: fn deserialize_enum | serves=C07 features=serialize
+//@rewrite-opt Self::Error ==> DeError
+    fn deserialize_enum<V>(
+        self,
+        _name: &str,
+        _variants: &'static [&'static str],
+        visitor: V,
+    ) -> Result<V::Value, DeError>
+    where
+        V: Visitor<'de>,
+    {
+        visitor.visit_enum(self)
+    }
+//@end
+//@extract de::key::QNameDeserializer::variant_seed | src/de/key.rs :: impl<'de, 'd> EnumAccess<'de> for QNameDeserializer<'de, 'd> :: fn variant_seed | serves=C07 features=serialize
+//@rewrite-opt Self::Error ==> DeError
+//@rewrite-opt Self::Variant ==> UnitOnly
+    fn variant_seed<V>(self, seed: V) -> Result<(V::Value, UnitOnly), DeError>
+    where
+        V: DeserializeSeed<'de>,
+    {
+        let name = seed.deserialize(self)?;
+        Ok((name, UnitOnly))
+    }
+//@end
+    // A-serde: what serde's `forward_to_deserialize_any! { char str string bytes byte_buf seq tuple tuple_struct map struct
+    // ignored_any }` generates for this type (hand transcription of the foreign macro, serde 1.x `forward_to_deserialize_any_method!`)
+    fn deserialize_char<V: Visitor<'de>>(self, visitor: V) -> Result<V::Value, DeError> { self.deserialize_any(visitor) }
+    fn deserialize_str<V: Visitor<'de>>(self, visitor: V) -> Result<V::Value, DeError> { self.deserialize_any(visitor) }
+    fn deserialize_string<V: Visitor<'de>>(self, visitor: V) -> Result<V::Value, DeError> { self.deserialize_any(visitor) }
+    fn deserialize_bytes<V: Visitor<'de>>(self, visitor: V) -> Result<V::Value, DeError> { self.deserialize_any(visitor) }
+    fn deserialize_byte_buf<V: Visitor<'de>>(self, visitor: V) -> Result<V::Value, DeError> { self.deserialize_any(visitor) }
+    fn deserialize_seq<V: Visitor<'de>>(self, visitor: V) -> Result<V::Value, DeError> { self.deserialize_any(visitor) }
+    fn deserialize_tuple<V: Visitor<'de>>(self, len: usize, visitor: V) -> Result<V::Value, DeError> { self.deserialize_any(visitor) }
+    fn deserialize_tuple_struct<V: Visitor<'de>>(self, name: &'static str, len: usize, visitor: V) -> Result<V::Value, DeError> { self.deserialize_any(visitor) }
+    fn deserialize_map<V: Visitor<'de>>(self, visitor: V) -> Result<V::Value, DeError> { self.deserialize_any(visitor) }
+    fn deserialize_struct<V: Visitor<'de>>(self, name: &'static str, fields: &'static [&'static str], visitor: V) -> Result<V::Value, DeError> { self.deserialize_any(visitor) }
+    fn deserialize_ignored_any<V: Visitor<'de>>(self, visitor: V) -> Result<V::Value, DeError> { self.deserialize_any(visitor) }
 }
 }
